@@ -23,6 +23,47 @@ NOMUT_MODULES = [
 
 
 # ------------------------------------------------------------------- R05-NOMUT
+def _own_state_params(m, mi, fd):
+    """parameters of the private function ``fd`` that receive, at every call site of
+    its module, the caller's own state: `self.<attr>`, or a local the caller bound
+    to a freshly created container"""
+    sites = []
+    for g in ast.walk(mi.tree):
+        if not isinstance(g, (ast.FunctionDef, ast.AsyncFunctionDef)) or g is fd:
+            continue
+        for call in ast.walk(g):
+            if isinstance(call, ast.Call) and (
+                    (isinstance(call.func, ast.Name) and call.func.id == fd.name)
+                    or (isinstance(call.func, ast.Attribute) and call.func.attr == fd.name
+                        and isinstance(call.func.value, ast.Name)
+                        and call.func.value.id in ("self", "cls"))):
+                bind = m._bind_args(call, fd)
+                if bind is None:
+                    return set()
+                sites.append((g, bind))
+    if not sites:
+        return set()
+
+    def own(g, e):
+        if isinstance(e, ast.Attribute) and isinstance(e.value, ast.Name) \
+                and e.value.id == "self":
+            return True
+        if isinstance(e, ast.Name):
+            asg = [a.value for a in ast.walk(g) if isinstance(a, (ast.Assign, ast.AnnAssign))
+                   and a.value is not None and any(
+                       isinstance(t, ast.Name) and t.id == e.id for t in (
+                           a.targets if isinstance(a, ast.Assign) else [a.target]))]
+            return bool(asg) and all(
+                isinstance(v, (ast.Dict, ast.List, ast.Set, ast.ListComp, ast.DictComp,
+                               ast.SetComp))
+                or (isinstance(v, ast.Call) and isinstance(v.func, ast.Name)
+                    and v.func.id in ("dict", "list", "set", "defaultdict", "OrderedSet"))
+                for v in asg)
+        return False
+    params = set(sites[0][1])
+    return {q for q in params if all(q in b and own(g, b[q]) for g, b in sites)}
+
+
 def nomut_scan(m: Model, modules, c, rule="R05-NOMUT", canary=False):
     n_funcs = 0
     hits = []
@@ -60,6 +101,11 @@ def nomut_scan(m: Model, modules, c, rule="R05-NOMUT", canary=False):
         accum = set()
         if fd.name.startswith("update_for_") or fd.name == "update_persistent_hash":
             accum = {f"${params[0]}"} if params else set()
+        # a private helper that is handed its caller's OWN table (every call site
+        # passes `self.<attr>` or a container the caller created itself) fills that
+        # table on the caller's behalf: the table is no input of the transformation
+        if fd.name.startswith("_") and not fd.name.startswith("__"):
+            accum |= {f"${q}" for q in _own_state_params(m, mi, fd)}
         for e in s.muts:
             real = frozenset(x for x in e.value if not x[0].startswith("~")
                              and x[0] != "__mapper__" and x[0] not in accum)
